@@ -44,8 +44,8 @@
  */
 #include "mx.h"
 
-enum { K_FULL = 0, K_RESUMED, K_CAUTH, NKIND };
-static const char *kindname[] = { "full", "resumed", "client-auth" };
+enum { K_FULL = 0, K_RESUMED, K_CAUTH, K_TKFULL, K_TKRES, NKIND };   /* K_TKFULL: full handshake that issues an RFC 5077 ticket; K_TKRES: resumption by ticket */
+static const char *kindname[] = { "full", "resumed", "client-auth", "ticket-full", "ticket-resumed" };
 typedef struct { int ver; uint16_t suite; int pmtu; int kind; } cfg_t;
 
 #define N_PROGRESS 12          /* timeout rounds allowed after the schedule stopped interfering */
@@ -298,7 +298,7 @@ static void sim_init(const cfg_t *c, const char *cls, const char *fates, const c
     sim_free();
     memset(&G, 0, sizeof G);
     G.cfg = *c; G.cls = cls; G.fates = fates; G.nf = (int) strlen(fates); G.verbose = vf_verbose;
-    G.mc = (mx_cfg) { .ver = c->ver, .suite = c->suite, .clientAuth = c->kind == K_CAUTH };
+    G.mc = (mx_cfg) { .ver = c->ver, .suite = c->suite, .clientAuth = c->kind == K_CAUTH, .useTicket = c->kind == K_TKFULL || c->kind == K_TKRES };
     snprintf(G.spec, sizeof G.spec, "S/%s/%04x/%d/%s/%s/%s/%s", mx_vername[c->ver], c->suite, c->pmtu, kindname[c->kind], cls, fates, spur ? spur : "");
     snprintf(G.keytail, sizeof G.keytail, "%s:%s:%s:%s", mx_vername[c->ver], famname(c->suite), kindname[c->kind], cls);
     for (const char *p = spur; p && *p; ) {
@@ -306,6 +306,7 @@ static void sim_init(const cfg_t *c, const char *cls, const char *fates, const c
         else p++;
     }
     G.sid = sid;
+    if (c->kind == K_TKFULL && !sid) { static sslSessionId_t *fresh; if (fresh) matrixSslDeleteSessionId(fresh); matrixSslNewSessionId(&fresh, NULL); G.sid = fresh; }   /* the client asks for a ticket and holds none */
     matrixDtlsSetPmtu(c->pmtu);
 }
 
@@ -448,9 +449,9 @@ static void cfg_prepare(cfgstate_t *cs)
 static void cfg_prepare_body(cfgstate_t *cs)
 {
     matrixDtlsSetPmtu(cs->c.pmtu);
-    if (cs->c.kind == K_RESUMED) {
+    if (cs->c.kind == K_RESUMED || cs->c.kind == K_TKRES) {
         /* establish the session that the cases resume */
-        cfg_t full = cs->c; full.kind = K_FULL;
+        cfg_t full = cs->c; full.kind = cs->c.kind == K_TKRES ? K_TKFULL : K_FULL;
         matrixSslNewSessionId(&cs->sid, NULL);
         memset(g_rank, 0xff, sizeof g_rank); g_record_rank = 1; g_nrank[0] = g_nrank[1] = 0;
         sim_init(&full, "setup", "", "", cs->sid);
@@ -463,7 +464,7 @@ static void cfg_prepare_body(cfgstate_t *cs)
     int ok = sim_handshake();
     g_record_rank = 0;
     if (!ok || G.nclauses) { if (!G.nclauses) vf_incon("clean handshake failed for %s %04x pmtu %d %s", mx_vername[cs->c.ver], cs->c.suite, cs->c.pmtu, kindname[cs->c.kind]); return; }
-    if (cs->c.kind == K_RESUMED && !(G.S.ssl->flags & SSL_FLAGS_RESUMED)) { vf_incon("session was not resumed for %s %04x", mx_vername[cs->c.ver], cs->c.suite); return; }
+    if ((cs->c.kind == K_RESUMED || cs->c.kind == K_TKRES) && !(G.S.ssl->flags & SSL_FLAGS_RESUMED)) { vf_incon("session was not resumed for %s %04x", mx_vername[cs->c.ver], cs->c.suite); return; }
     cs->ndg = G.sendIdx; cs->nsteps = G.step;
     memcpy(cs->rank, g_rank, sizeof g_rank);
     sim_free();
@@ -790,7 +791,7 @@ int main(int argc, char **argv)
     for (int kind = K_FULL; kind <= K_RESUMED; kind++) { mx_entropy_seed(vf_seed * 31 + ci++); gen_schedules(cfg_get(MX_DTLS12, 0x00ae, 256, kind), T ? 10 : 5, T ? 500 : 8, 1, &g); }
     /* --- certificate suites: RSA key transport and ECDHE-RSA, CBC and GCM, all PMTUs, three handshake kinds --- */
     static const struct { uint16_t suite; int ver; } cert[] = { { 0x002f, MX_DTLS10 }, { 0x002f, MX_DTLS12 }, { 0x009c, MX_DTLS12 }, { 0xc013, MX_DTLS10 }, { 0xc013, MX_DTLS12 }, { 0xc02f, MX_DTLS12 } };
-    for (int i = 0; i < 6; i++) for (int pi = 0; pi < 3; pi++) for (int kind = 0; kind < NKIND; kind++) {
+    for (int i = 0; i < 6; i++) for (int pi = 0; pi < 3; pi++) for (int kind = 0; kind <= K_CAUTH; kind++) {
         int ecdhe = cert[i].suite >= 0xc000;
         mx_entropy_seed(vf_seed * 31 + ci++);
         if (!T) {
@@ -804,6 +805,13 @@ int main(int argc, char **argv)
             g_L = pi == 0 ? 12 : 24; g_delays = 3; g_spsteps = pi == 0 ? 12 : 24;
             gen_schedules(cfg_get(cert[i].ver, cert[i].suite, pmtus[pi], kind), m, ecdhe ? 300 : 600, pi == 0 || pi == 2 ? 2 : 1, &g);
         }
+    }
+    /* --- RFC 5077 tickets: the server's last flight carries NewSessionTicket; a resumed handshake presents the ticket in ClientHello --- */
+    g_L = T ? 16 : 12; g_delays = T ? 3 : 1; g_spsteps = T ? 16 : 10;
+    for (int kind = K_TKFULL; kind <= K_TKRES; kind++) {
+        mx_entropy_seed(vf_seed * 31 + ci++); gen_schedules(cfg_get(MX_DTLS12, 0x00ae, 1500, kind), T ? 10 : 6, T ? 600 : 12, 1, &g);
+        mx_entropy_seed(vf_seed * 31 + ci++); gen_schedules(cfg_get(MX_DTLS10, 0x002f, 1500, kind), T ? 8 : 4, T ? 300 : 6, 1, &g);
+        if (T) { mx_entropy_seed(vf_seed * 31 + ci++); gen_schedules(cfg_get(MX_DTLS12, 0xc02f, 256, kind), 6, 200, 1, &g); }
     }
     batch_flush();
 
